@@ -1141,6 +1141,7 @@ int Interpret::interpPipe() {
     bool inComment = false;
     bool inString = false;
     bool inQuotedSymbol = false;
+    bool inStringEscape = false;
 
     bool done  = false;
     buf[0] = '\0';
@@ -1191,6 +1192,9 @@ int Interpret::interpPipe() {
             }
             assert (not inComment and not inQuotedSymbol);
             if (inString) {
+                // As in the lexer, a backslash inside a string escapes the next character (\" does not end the string)
+                if (inStringEscape) { inStringEscape = false; continue; }
+                if (c == '\\') { inStringEscape = true; continue; }
                 inString = (c != '\"');
             } else if (c == '\"') {
                 inString = true;
